@@ -897,3 +897,167 @@ Proof.
     change (MsgRequestPreVote =? MsgRequestVote) with false in Px. cbv iota in Px.
     apply (OInv_push r); [exact HI|]. apply Px; [intros _; apply HI|discriminate].
 Qed.
+
+Lemma votes_ok_record r from v :
+  votes_ok r -> (v = true -> ~ In from (l :: ids)) ->
+  forall id, Quorum.assoc (Quorum.record_vote (t_votes (r_prs r)) from v) id = Some true ->
+             ~ In id (l :: ids).
+Proof.
+  intros Hv Hf id H. rewrite QuorumProofs.record_vote_assoc in H.
+  destruct (Quorum.assoc (t_votes (r_prs r)) id) as [b|] eqn:E.
+  - apply Hv. congruence.
+  - destruct (from =? id) eqn:E2; [|discriminate]. apply N.eqb_eq in E2. subst id.
+    apply Hf. congruence.
+Qed.
+
+(* counting a response: never a win *)
+Lemma O_poll r from v rp res :
+  OInv r -> (v = true -> ~ In from (l :: ids)) -> poll r from v = Ok (rp, res) -> OInv rp.
+Proof.
+  intros HI Hf H. pose proof HI as (I1 & I2 & I3 & I4 & I5 & I6 & I7).
+  unfold poll in H. apply poll_gen_cases in H. cbn zeta in H. destruct H as [Hres H].
+  pose proof (votes_ok_record r from v I6 Hf) as Hv'.
+  assert (HIw : OInv (with_votes r (Quorum.record_vote (t_votes (r_prs r)) from v))).
+  { unfold OInv, confq, votes_ok, with_votes. cbn. repeat split; try assumption; apply I5. }
+  destruct res.
+  - rewrite H. exact HIw.
+  - eapply OInv_become_follower; [exact HIw|exact I3|exact H].
+  - exfalso. symmetry in Hres. revert Hres. apply no_win; assumption.
+Qed.
+
+Lemma O_step_candidate r m r' c :
+  OInv r -> PC m -> snapq (m_snapshot m) ->
+  (r_state r = Candidate \/ r_state r = PreCandidate) ->
+  step_candidate r m = Ok (r', c) -> OInv r'.
+Proof.
+  intros HI Pm Hsq Hrole H. pose proof HI as (I1 & I2 & I3 & I4 & I5 & I6 & I7).
+  unfold step_candidate in H.
+  dtop H; [injection H as <- <-; exact HI|].
+  dtop H.
+  { dtop H; [discriminate|]. apply negb_false_iff, N.eqb_eq in Heqb1.
+    ib H r1 H1. ib H r2 H2. injection H as <- <-.
+    apply (OInv_become_follower r) in H1; [|exact HI|lia]. destruct H1 as (J1 & S1 & _).
+    dtop H2; [eapply O_handle_append_entries; eassumption|].
+    dtop H2; [eapply O_handle_heartbeat; eassumption|].
+    eapply O_handle_snapshot; eassumption. }
+  dtop H; [|injection H as <- <-; exact HI].
+  dtop H; [injection H as <- <-; exact HI|].
+  ib H y Hy. destruct y as [rp res]. cbn [fst] in H. ib H z Hz. injection H as <- <-.
+  eapply O_maybe_commit_by_vote; [|exact Hz]. eapply O_poll; [exact HI| |exact Hy].
+  intros Hg. destruct Pm as (_ & _ & P3 & _). apply P3.
+  - apply orb_prop in Heqb1. unfold vresp.
+    destruct Heqb1 as [E|E]; apply N.eqb_eq in E; [right|left]; exact E.
+  - destruct (m_reject m); [discriminate|reflexivity].
+Qed.
+
+(* the pre-vote requests of a campaign *)
+Lemma PC_prevote_req r ci lt id :
+  OInv r ->
+  PC (vote_req (r_id r) (r_log r) (r_priority r) MsgRequestPreVote (r_term r + 1)
+               (fst ci) (snd ci) false lt id).
+Proof.
+  intros (I1 & I2 & _).
+  pose proof (vote_req_fields (r_id r) (r_log r) (r_priority r) MsgRequestPreVote (r_term r + 1)
+                (fst ci) (snd ci) false lt id) as F. cbn zeta in F.
+  set (x := vote_req _ _ _ _ _ _ _ _ _ _) in *.
+  destruct F as (F1 & F2 & F3 & F4 & F5 & F6 & F7 & F8 & F9 & F10 & F11 & F12).
+  assert (Hn : netmsg (m_type x)) by (rewrite F1; repeat split; discriminate).
+  assert (Hf : ~ In (m_from x) (l :: ids)) by (rewrite F3, I2; exact Ho).
+  split; [right; unfold exempt; rewrite F1; reflexivity|]. split; [exact Hn|].
+  split; [intros [E|E]; rewrite F1 in E; discriminate|].
+  split; [intros _; split; [exact Hf|rewrite F11; reflexivity]|].
+  intros _ _. split; [exact Hf|]. split; [exact Hn|]. left. exact F1.
+Qed.
+
+Lemma O_hup r r' : OInv r -> hup r false = Ok r' -> OInv r'.
+Proof.
+  intros HI H. pose proof HI as (I1 & I2 & I3 & I4 & I5 & I6 & I7).
+  apply hup_cases in H. destruct H as [->|(_ & _ & H)]; [exact HI|].
+  rewrite I1 in H. apply campaign_pre_spec in H. destruct H as [_ [[Hw _]|[_ H]]].
+  - exfalso. revert Hw. apply no_win; [exact I5|].
+    intros id Hid. cbn in Hid. destruct (r_id r =? id) eqn:E; [|discriminate].
+    apply N.eqb_eq in E. rewrite <- E, I2. exact Ho.
+  - destruct H as (ci & new & _ & -> & _ & Hall).
+    unfold OInv, confq, votes_ok, pre_candidate_of, conf_of. cbn.
+    repeat split; try assumption; try apply I5; try discriminate.
+    + intros id Hid. destruct (r_id r =? id) eqn:E; [|discriminate].
+      apply N.eqb_eq in E. rewrite <- E, I2. exact Ho.
+    + apply Forall_app. split; [exact I7|]. apply Forall_forall. intros x Hx.
+      destruct (Hall x Hx) as (lt & _ & ->). apply PC_prevote_req. exact HI.
+Qed.
+
+Lemma O_step_follower r m r' c :
+  OInv r -> PC m -> snapq (m_snapshot m) -> r_state r = Follower ->
+  step_follower r m = Ok (r', c) -> OInv r'.
+Proof.
+  intros HI Pm Hsq Hf H. pose proof Pm as (_ & (N1 & _ & _ & _ & _ & N6 & N7) & _).
+  unfold step_follower in H.
+  assert (Hset : OInv (r <| r_election_elapsed := 0 |> <| r_leader_id := m_from m |>))
+    by (apply (OInv_transport r _ HI); try reflexivity; apply HI).
+  destruct (m_type m =? MsgPropose) eqn:E1.
+  { apply N.eqb_eq in E1. dtop H; [injection H as <- <-; exact HI|].
+    dtop H; [injection H as <- <-; exact HI|].
+    ib H y Hy. injection H as <- <-. eapply OInv_forward; [exact HI|left; exact E1|exact Hy]. }
+  dtop H; [ib H y Hy; injection H as <- <-; eapply O_handle_append_entries; eassumption|].
+  dtop H; [ib H y Hy; injection H as <- <-; eapply O_handle_heartbeat; eassumption|].
+  dtop H; [ib H y Hy; injection H as <- <-; eapply O_handle_snapshot; try eassumption; exact Hf|].
+  dtop H; [apply N.eqb_eq in Heqb2; contradiction|].
+  dtop H; [apply N.eqb_eq in Heqb3; contradiction|].
+  destruct (m_type m =? MsgReadIndex) eqn:E7.
+  { apply N.eqb_eq in E7. dtop H; [injection H as <- <-; exact HI|].
+    ib H y Hy. injection H as <- <-. eapply OInv_forward; [exact HI|right; exact E7|exact Hy]. }
+  dtop H; [|injection H as <- <-; exact HI].
+  destruct (m_entries m) as [|e [|e2 rest]]; try (injection H as <- <-; exact HI).
+  ib H y Hy. injection H as <- <-.
+  apply (OInv_transport r _ HI); try reflexivity. apply HI.
+Qed.
+
+(* (1) THE OUTSIDER'S STEP: under any message of the pool class (with a quorum-keeping
+   snapshot, if it is one) the invariant is kept: the term stays <= t, the node does not
+   become leader, and whatever it queues is of the pool class again - in particular
+   [adv_ok] when addressed to a window member *)
+Theorem outsider_step r m r' c :
+  OInv r -> PC m -> snapq (m_snapshot m) -> step r m = Ok (r', c) -> OInv r'.
+Proof.
+  intros HI Pm Hsq H. pose proof Pm as (P1 & (N1 & _) & _).
+  rewrite step_eq in H. ib H pre Hpre. apply step_pre_cases in Hpre.
+  destruct pre as [[r1 c1]|r1].
+  - injection H as <- <-. destruct Hpre as (_ & _ & [(_ & _ & ->)|(_ & Hr)]); [exact HI|].
+    eapply O_low_term_reply; eassumption.
+  - assert (HI1 : OInv r1).
+    { destruct Hpre as [[-> _]|(L & D & E & Hf)]; [exact HI|].
+      eapply OInv_become_follower; [exact HI| |exact Hf].
+      destruct P1 as [P1|P1]; [exact P1|congruence]. }
+    clear Hpre. unfold step_body in H.
+    destruct (m_type m =? MsgHup) eqn:Ehup; [apply N.eqb_eq in Ehup; contradiction|].
+    destruct ((m_type m =? MsgRequestVote) || (m_type m =? MsgRequestPreVote)) eqn:Ev.
+    { assert (Hq : vreq m) by (apply orb_prop in Ev; destruct Ev as [X|X]; apply N.eqb_eq in X; [left|right]; exact X).
+      eapply (O_vote_branch r1 m r' c); [exact HI1|exact Pm|exact Hq|].
+      unfold step_body. rewrite Ehup, Ev. exact H. }
+    pose proof HI1 as (_ & _ & _ & I4 & _).
+    destruct (r_state r1) eqn:Es.
+    + eapply O_step_follower; eassumption.
+    + eapply O_step_candidate; try eassumption. left. exact Es.
+    + contradiction.
+    + eapply O_step_candidate; try eassumption. right. exact Es.
+Qed.
+
+(* ... and its tick: wait, or time out and send pre-vote requests *)
+Theorem outsider_tick r r' b : OInv r -> tick r = Ok (r', b) -> OInv r'.
+Proof.
+  intros HI H. pose proof HI as (I1 & I2 & I3 & I4 & I5 & I6 & I7).
+  assert (Ht : tick r = tick_election r) by (unfold tick; destruct (r_state r); try reflexivity; contradiction).
+  rewrite Ht in H. unfold tick_election in H.
+  dtop H; [injection H as <- <-; apply (OInv_transport r _ HI); try reflexivity; exact I7|].
+  ib H y Hy. injection H as <- <-. destruct y as [r1 c1]. cbn [fst].
+  set (r0 := r <| r_election_elapsed := r_election_elapsed r + 1 |> <| r_election_elapsed := 0 |>) in *.
+  assert (HI0 : OInv r0) by (apply (OInv_transport r _ HI); try reflexivity; exact I7).
+  rewrite step_eq in Hy. unfold step_pre in Hy.
+  change (m_term (new_message INVALID_ID MsgHup (Some (r_id r0)))) with 0 in Hy.
+  change (0 =? 0) with true in Hy. cbn [bind] in Hy. unfold step_body in Hy.
+  change (m_type (new_message INVALID_ID MsgHup (Some (r_id r0)))) with MsgHup in Hy.
+  change (MsgHup =? MsgHup) with true in Hy. cbv iota in Hy.
+  ib Hy z Hz. injection Hy as <- <-. eapply O_hup; eassumption.
+Qed.
+
+End Outsider.
